@@ -528,11 +528,17 @@ class NAHooks(Hooks):
                 n = max([minlength] + [i + 1 for i in ii])
                 ws = None if weights is None else list(
                     na_of(weights).a.ravel())
+                cplx = ws is not None and na_of(weights).dt.d.kind == 'c'
+                if cplx:
+                    # NumPy converts the weights to double: the imaginary
+                    # parts are discarded (ComplexWarning only)
+                    ws = [H.real(to_rat(v)) for v in ws]
                 out = [0] * n if ws is None else [Rat.const(0)] * n
                 for k, i in enumerate(ii):
                     out[i] = out[i] + (1 if ws is None else to_rat(ws[k]))
                 return NA(objarr(out), DT('int64') if ws is None else (
-                    na_of(weights).dt))
+                    DT('float64') if cplx or na_of(weights).dt.d.kind
+                    in 'biu' else na_of(weights).dt))
             return bincount
         if name in ('argmax', 'argmin'):
             def arg(v, axis=None, **k):
